@@ -167,6 +167,7 @@ def report(pid, tier, seed, mod, results, wall, replay_mode=False, partial=False
     for l in lines:
         print(l)
     meta = getattr(mod, "META", {})
+    linecov = line_coverage(funcs, results)
     if not partial:
         proved = [r for r in disch if not r.get("bounded")]
         all_ok = (not viol and not undec and not errs)
@@ -188,6 +189,7 @@ def report(pid, tier, seed, mod, results, wall, replay_mode=False, partial=False
             "unbounded_in": meta.get("unbounded_in", []),
             "undecided": [r["name"] for r in undec],
             "known_findings_hit": [r["name"] for _, r in known_hit],
+            "line_coverage_of_functions_under_contract": linecov,
             "samples": [{"obligation": r["name"], "backend": r.get("backend"), "impl": r.get("sample", "")}
                         for r in results[:: max(1, n // 6)]][:8],
             "explanation": ("every obligation generated from /repo's current source was discharged"
@@ -210,6 +212,56 @@ def report(pid, tier, seed, mod, results, wall, replay_mode=False, partial=False
     if undec:
         return 2
     return 0
+
+
+def line_coverage(funcs, results):
+    """per function under contract: executable statements of its body that no obligation of this run executed
+    (Engine B: python lines run while tracing; Engine A: statements executed symbolically)"""
+    import ast
+    covered = {}
+    for r in results:
+        for f, ls in (r.get("lines") or {}).items():
+            covered.setdefault(f, set()).update(ls)
+    out, cache = {}, {}
+    for q in funcs:
+        if ":" not in q:
+            continue
+        modname, qual = q.split(":", 1)
+        path = "/repo/" + modname.replace(".", "/") + ".py"
+        if not os.path.exists(path):
+            path = "/repo/" + modname.replace(".", "/") + "/__init__.py"
+            if not os.path.exists(path):
+                continue
+        if path not in cache:
+            try:
+                cache[path] = ast.parse(open(path).read())
+            except Exception:
+                continue
+        node = cache[path]
+        ok = True
+        for part in qual.split("."):
+            nxt = None
+            for ch in ast.walk(node):
+                if isinstance(ch, (ast.FunctionDef, ast.ClassDef)) and ch.name == part and ch is not node:
+                    nxt = ch
+                    break
+            if nxt is None:
+                ok = False
+                break
+            node = nxt
+        if not ok or not isinstance(node, ast.FunctionDef):
+            continue
+        stmts = {}
+        for ch in ast.walk(node):
+            if isinstance(ch, ast.stmt) and ch is not node and not (isinstance(ch, ast.Expr) and isinstance(ch.value, ast.Constant)):
+                if not isinstance(ch, (ast.FunctionDef, ast.ClassDef)):
+                    body = getattr(ch, "body", None)
+                    end = (body[0].lineno - 1) if isinstance(body, list) and body else getattr(ch, "end_lineno", ch.lineno)
+                    stmts[ch.lineno] = max(ch.lineno, end)      # header span of compound statements
+        cov = covered.get(path, set())
+        un = sorted(l for l, e in stmts.items() if not any(x in cov for x in range(l, e + 1)))
+        out[q] = {"executable_statements": len(stmts), "covered": len(stmts) - len(un), "uncovered_lines": un[:40]}
+    return out
 
 
 def _match(pattern, name):
